@@ -47,7 +47,7 @@ theorem flat_first (hE : CastIdem E) (alts : List TraitType) (v : Val) :
       have hfa : fastAlts E (t :: ts) = t :: fastAlts E ts := by simp [fastAlts, hd]
       have hct : ctraitValidate E t v = fastAlone E d v := by simp [ctraitValidate, ctraitValidateWith, hd]
       rw [hfa, List.map_cons, firstAccept_cons, hct]
-      rcases (agreeP_all E hE t).1 d hd with ha | ⟨ds, rfl, hds⟩
+      rcases (agreeP_all E hE t).1 d hd with ha | ⟨ds, rfl, hds, _⟩
       · have hflat : flatFast E (t :: ts) = d :: flatFast E ts := by
           cases d <;> simp [Desc.isAlt] at ha <;> simp [flatFast, hd]
         rw [hflat, List.map_cons, firstAccept_cons, altAlone_of_isAlt E d v ha, ih]
@@ -99,7 +99,7 @@ theorem either_first (hE : CastIdem E) (alts : List TraitType) (wn : Bool) (d : 
   rw [descOf_either_eq E alts wn d hd]
   have hshape := (agreeP_all E hE (.either alts wn)).1 d hd
   rw [descOf_either_eq E alts wn d hd] at hshape
-  rcases hshape with ha | ⟨ds, hds, hent⟩
+  rcases hshape with ha | ⟨ds, hds, hent, _⟩
   · simp [Desc.isAlt] at ha
   · cases hds
     simp only [fastAlone]
